@@ -177,6 +177,7 @@ fn opts_for(prop: &str, r: &mut Rng) -> GenOpts {
         "C02" => {
             o.max_nodes = 12;
             o.max_solutions = 8;
+            o.p_mid_sets = 0.01;
             // several failing nodes in one level: which one is reported must not depend on the schedule
             o.p_fail = *r.pick(&[0.04, 0.04, 0.3, 0.6]);
         }
@@ -190,6 +191,7 @@ fn opts_for(prop: &str, r: &mut Rng) -> GenOpts {
             o.allow_conflicts = r.chance(0.3);
             o.max_solutions = 6;
             o.p_dup_solution = 0.12;
+            o.p_mid_sets = 0.02;
             o.p_post = 0.3;
             o.p_raw_graph = 0.02;
         }
